@@ -984,3 +984,244 @@ Proof.
   destruct (terminal_or_fell c n (run_list_good tops (init md) (good_init md)) R Hn Hne) as [T|T]; [exact T|].
   unfold guard_F08b in G. fold c in G. destruct (g_fell c); [destruct T | discriminate].
 Qed.
+
+(* ---------- true nesting = counted depth as long as no fall-through happens ---------- *)
+Lemma check_nest : forall name c,
+  g_nest (fst (check name c)) = g_nest c /\ g_peak_nest (fst (check name c)) = g_peak_nest c.
+Proof.
+  intros name c. unfold check. destruct name as [n|]; [|split; reflexivity].
+  assert (C : g_nest (cycle_placeholder n c) = g_nest c /\ g_peak_nest (cycle_placeholder n c) = g_peak_nest c).
+  { unfold cycle_placeholder. cbv zeta. destruct (should_store n (cycle_path n (stack c)));
+      destruct (allow_self c && is_direct (cycle_path n (stack c))); split; reflexivity. }
+  destruct (state_of c n); try (split; reflexivity);
+    (destruct (max_depth c <? depth c); [split; reflexivity|]);
+    (destruct (mem_str n (stack c)); [exact C | split; reflexivity]).
+Qed.
+
+Lemma enter_nest : forall name c c' a,
+  enter name c = (c', a) -> g_nest c' = g_nest c /\ g_peak_nest c' = g_peak_nest c.
+Proof.
+  intros name c c' a H. unfold enter in H.
+  pose proof (check_nest name (set_depth c (depth c + 1))) as K.
+  destruct (check name (set_depth c (depth c + 1))) as [c2 a2]. cbn [fst g_nest g_peak_nest set_depth] in K.
+  destruct a2; destruct name as [n|]; try (inversion H; subst; exact K).
+  destruct (truthy (Some n)); inversion H; subst; exact K.
+Qed.
+
+Lemma exit_ghost : forall name c,
+  g_nest (exit name c) = g_nest c /\ g_peak_nest (exit name c) = g_peak_nest c
+  /\ g_peak (exit name c) = (if 0 <? depth c then N.max (g_peak c) (depth c - 1) else g_peak c).
+Proof.
+  intros name c. unfold exit.
+  set (c1 := if 0 <? depth c then set_depth c (depth c - 1) else c).
+  assert (H1 : g_nest c1 = g_nest c /\ g_peak_nest c1 = g_peak_nest c
+               /\ g_peak c1 = (if 0 <? depth c then N.max (g_peak c) (depth c - 1) else g_peak c)).
+  { unfold c1. destruct (0 <? depth c); repeat split; reflexivity. }
+  destruct name as [n|]; [|exact H1].
+  destruct (truthy (Some n)); [|exact H1]. cbv zeta.
+  destruct (mem_str n (stack c1));
+    match goal with |- context [alookup ?k ?d] => destruct (alookup k d) as [[]|] end; exact H1.
+Qed.
+
+Definition fell_ext (c' c : ctx) : Prop := exists l, g_fell c' = g_fell c ++ l.
+
+Lemma fell_ext_refl : forall c, fell_ext c c.
+Proof. intro c. exists []. rewrite app_nil_r. reflexivity. Qed.
+
+Lemma fell_ext_trans : forall a b c, fell_ext a b -> fell_ext b c -> fell_ext a c.
+Proof. intros a b c [l1 H1] [l2 H2]. exists (l2 ++ l1). rewrite H1, H2, app_assoc. reflexivity. Qed.
+
+Lemma fell_ext_eq : forall c' c, g_fell c' = g_fell c -> fell_ext c' c.
+Proof. intros c' c H. exists []. rewrite app_nil_r. exact H. Qed.
+
+Lemma fell_ext_nil : forall c' c, fell_ext c' c -> g_fell c' = [] -> g_fell c = [].
+Proof. intros c' c [l H] E. rewrite H in E. apply app_eq_nil in E. tauto. Qed.
+
+Lemma enter_fell : forall name c c' a, enter name c = (c', a) -> g_fell c' = g_fell c.
+Proof.
+  intros name c c' a H. apply enter_unfold in H. destruct H as (c2 & Hc & _ & Hf & _).
+  pose proof (check_states name (set_depth c (depth c + 1)) []) as [K _]. rewrite Hc in K. cbn [fst] in K.
+  rewrite Hf, K. reflexivity.
+Qed.
+
+Lemma exit_fell : forall name c, g_fell (exit name c) = g_fell c.
+Proof. intros name c. pose proof (exit_states name c []) as [K _]. exact K. Qed.
+
+Lemma run_list_fell_ext : forall l,
+  Forall (fun t => forall c, fell_ext (run c t) c) l -> forall c, fell_ext (run_list c l) c.
+Proof.
+  induction 1 as [|t r Ht _ IH]; intro c; cbn [run_list]; [apply fell_ext_refl|].
+  eapply fell_ext_trans; [apply IH | apply Ht].
+Qed.
+
+Theorem run_fell_ext : forall t c, fell_ext (run c t) c.
+Proof.
+  induction t as [k|k|name allow body IH] using call_ind2; intro c;
+    [apply fell_ext_eq; reflexivity | apply fell_ext_eq; reflexivity |].
+  rewrite run_Call. unfold call_step.
+  pose proof (run_list_fell_ext body IH) as HL.
+  destruct (enter name (set_allow (frame_in c name) allow)) as [c1 a] eqn:E.
+  apply enter_fell in E. cbn [g_fell set_allow frame_in note_entered set_nest] in E.
+  assert (F1 : fell_ext c1 c) by (apply fell_ext_eq; exact E).
+  assert (Ex : forall Y, fell_ext Y c -> fell_ext (frame_out (exit name Y)) c).
+  { intros Y HY. eapply fell_ext_trans; [|exact HY]. apply fell_ext_eq.
+    change (g_fell (frame_out (exit name Y))) with (g_fell (exit name Y)). apply exit_fell. }
+  destruct a.
+  - apply Ex. eapply fell_ext_trans; [apply HL | exact F1].
+  - apply Ex. exact F1.
+  - apply Ex. exact F1.
+  - assert (F2 : fell_ext (exit name c1) c).
+    { eapply fell_ext_trans; [|exact F1]. apply fell_ext_eq. apply exit_fell. }
+    destruct name as [n|].
+    + destruct (truthy (Some n)).
+      * destruct (registered (exit (Some n) c1) n).
+        -- eapply fell_ext_trans; [|exact F2]. apply fell_ext_eq. reflexivity.
+        -- apply Ex. eapply fell_ext_trans; [apply HL|].
+           eapply fell_ext_trans; [|exact F2]. exists [n]. reflexivity.
+      * apply Ex. eapply fell_ext_trans; [apply HL | exact F2].
+    + apply Ex. eapply fell_ext_trans; [apply HL | exact F2].
+Qed.
+
+Theorem run_list_fell_ext_all : forall l c, fell_ext (run_list c l) c.
+Proof. intros l. apply run_list_fell_ext. apply Forall_forall. intros t _. apply run_fell_ext. Qed.
+
+(* the nesting counter is restored by every call *)
+Lemma run_list_nest : forall l,
+  Forall (fun t => forall c, g_nest (run c t) = g_nest c) l -> forall c, g_nest (run_list c l) = g_nest c.
+Proof.
+  induction 1 as [|t r Ht _ IH]; intro c; cbn [run_list]; [reflexivity|]. rewrite IH. apply Ht.
+Qed.
+
+Theorem run_nest : forall t c, g_nest (run c t) = g_nest c.
+Proof.
+  induction t as [k|k|name allow body IH] using call_ind2; intro c; try reflexivity.
+  rewrite run_Call. unfold call_step.
+  pose proof (run_list_nest body IH) as HL.
+  destruct (enter name (set_allow (frame_in c name) allow)) as [c1 a] eqn:E.
+  apply enter_nest in E. destruct E as [E _].
+  change (g_nest (set_allow (frame_in c name) allow)) with (g_nest c + 1) in E.
+  assert (Ex : forall Y, g_nest Y = g_nest c + 1 -> g_nest (frame_out (exit name Y)) = g_nest c).
+  { intros Y HY. change (g_nest (frame_out (exit name Y))) with (g_nest (exit name Y) - 1).
+    pose proof (exit_ghost name Y) as (G & _). lia. }
+  assert (E2 : g_nest (exit name c1) = g_nest c + 1) by (pose proof (exit_ghost name c1) as (G & _); lia).
+  destruct a.
+  - apply Ex. rewrite HL. exact E.
+  - apply Ex. exact E.
+  - apply Ex. exact E.
+  - destruct name as [n|].
+    + destruct (truthy (Some n)).
+      * destruct (registered (exit (Some n) c1) n).
+        -- change (g_nest (frame_out (exit (Some n) c1))) with (g_nest (exit (Some n) c1) - 1). lia.
+        -- apply Ex. rewrite HL. exact E2.
+      * apply Ex. rewrite HL. exact E2.
+    + apply Ex. rewrite HL. exact E2.
+Qed.
+
+Theorem run_list_nest_all : forall l c, g_nest (run_list c l) = g_nest c.
+Proof. intros l. apply run_list_nest. apply Forall_forall. intros t _. apply run_nest. Qed.
+
+Definition synced (c : ctx) : Prop :=
+  depth c = g_nest c /\ g_peak c = g_peak_nest c /\ depth c <= g_peak c.
+
+Definition sync_ok (t : call) : Prop :=
+  names_truthy t = true -> forall c, synced c -> g_fell (run c t) = [] -> synced (run c t).
+
+Lemma sync_ok_list : forall l, Forall sync_ok l -> Forall (fun t => names_truthy t = true) l ->
+  forall c, synced c -> g_fell (run_list c l) = [] -> synced (run_list c l).
+Proof.
+  induction 1 as [|t r Ht _ IH]; intros Hn c Hs Hf; cbn [run_list] in *; [exact Hs|].
+  inversion Hn as [|? ? Hn1 Hn2]; subst.
+  apply IH; [exact Hn2| |exact Hf]. apply Ht; [exact Hn1 | exact Hs|].
+  eapply fell_ext_nil; [apply run_list_fell_ext_all | exact Hf].
+Qed.
+
+Lemma names_truthy_Call : forall name allow body,
+  names_truthy (Call name allow body) = true ->
+  name <> Some [] /\ Forall (fun t => names_truthy t = true) body.
+Proof.
+  intros name allow body H. cbn [names_truthy] in H. apply andb_true_iff in H. destruct H as [H1 H2].
+  split; [intro; subst; discriminate|].
+  induction body as [|x r IH]; constructor; apply andb_true_iff in H2; destruct H2; auto.
+Qed.
+
+(* without a fall-through (and without the empty name), the counted depth IS the true nesting of
+   _parse_schema frames, at every moment *)
+Theorem run_synced : forall t, sync_ok t.
+Proof.
+  induction t as [k|k|name allow body IH] using call_ind2; try (intros _ c Hs _; exact Hs).
+  intro Hnt. apply names_truthy_Call in Hnt. destruct Hnt as [Hne Hnb].
+  pose proof (sync_ok_list body IH Hnb) as HL. clear IH.
+  intros c (S1 & S2 & S3). rewrite run_Call. unfold call_step.
+  set (c0 := set_allow (frame_in c name) allow).
+  destruct (enter name c0) as [c1 a] eqn:E.
+  pose proof (enter_nest _ _ _ _ E) as [N1 N2]. pose proof (enter_peak _ _ _ _ E) as [P1 _].
+  pose proof (enter_spec _ _ _ _ E) as [D1 _].
+  change (g_nest c0) with (g_nest c + 1) in N1.
+  change (g_peak_nest c0) with (N.max (g_peak_nest c) (g_nest c + 1)) in N2.
+  change (g_peak c0) with (g_peak c) in P1. change (depth c0) with (depth c) in P1, D1.
+  assert (Sy1 : synced c1) by (unfold synced; lia).
+  assert (Fin : forall Y, synced Y -> g_nest Y = g_nest c + 1 -> synced (frame_out (exit name Y))).
+  { intros Y (Y1 & Y2 & Y3) Y4. pose proof (exit_ghost name Y) as (G1 & G2 & G3).
+    pose proof (exit_depth name Y) as G4.
+    assert (E0 : (0 <? depth Y) = true) by (apply N.ltb_lt; lia). rewrite E0 in G3, G4.
+    unfold synced.
+    change (depth (frame_out (exit name Y))) with (depth (exit name Y)).
+    change (g_peak (frame_out (exit name Y))) with (g_peak (exit name Y)).
+    change (g_nest (frame_out (exit name Y))) with (g_nest (exit name Y) - 1).
+    change (g_peak_nest (frame_out (exit name Y))) with (N.max (g_peak_nest (exit name Y)) (g_nest (exit name Y) - 1)).
+    lia. }
+  assert (Ff : forall Y, g_fell (frame_out (exit name Y)) = g_fell Y).
+  { intro Y. change (g_fell (frame_out (exit name Y))) with (g_fell (exit name Y)). apply exit_fell. }
+  destruct a.
+  - intro Hf. rewrite Ff in Hf. apply Fin; [apply HL; assumption | rewrite run_list_nest_all; exact N1].
+  - intros _. apply Fin; [exact Sy1 | exact N1].
+  - intros _. apply Fin; [exact Sy1 | exact N1].
+  - destruct name as [n|]; [|rewrite enter_None in E; discriminate].
+    destruct n as [|x n]; [exfalso; apply Hne; reflexivity|]. cbn [truthy].
+    match goal with |- context [registered ?a ?b] => destruct (registered a b) end.
+    + intros _. apply Fin; [exact Sy1 | exact N1].
+    + intro Hf. exfalso. rewrite Ff in Hf.
+      match type of Hf with g_fell (run_list ?X body) = [] => pose proof (run_list_fell_ext_all body X) as [l Hl] end.
+      rewrite Hl in Hf. cbn [g_fell add_fell] in Hf.
+      apply app_eq_nil in Hf. destruct Hf as [Hf _]. apply app_eq_nil in Hf. destruct Hf as [_ Hf]. discriminate.
+Qed.
+
+(* Consequence: from a fresh context, if no fall-through happened, the peak of true nesting equals the peak of
+   the counted depth; for trees of named frames both are therefore bounded by the limit + 1. *)
+Theorem nesting_is_depth : forall md tops,
+  guard_F08b md tops = true -> forallb names_truthy tops = true ->
+  let c := run_list (init md) tops in g_peak_nest c = g_peak c.
+Proof.
+  intros md tops G Hn c.
+  assert (Hf : g_fell c = []) by (unfold guard_F08b in G; fold c in G; destruct (g_fell c); [reflexivity | discriminate]).
+  assert (S : synced c).
+  { apply sync_ok_list.
+    - apply Forall_forall. intros t _. apply run_synced.
+    - apply Forall_forall. rewrite forallb_forall in Hn. exact Hn.
+    - unfold synced. cbn. lia.
+    - exact Hf. }
+  destruct S as (_ & S & _). symmetry. exact S.
+Qed.
+
+Theorem nesting_named_bounded : forall md tops,
+  guard_F08b md tops = true -> forallb all_named tops = true ->
+  g_peak_nest (run_list (init md) tops) <= md + 1.
+Proof.
+  intros md tops G Hn.
+  assert (Hnt : forallb names_truthy tops = true).
+  { apply forallb_forall. intros t Ht. rewrite forallb_forall in Hn. specialize (Hn t Ht).
+    revert Hn. clear. induction t as [k|k|name allow body IH] using call_ind2; intro H; try reflexivity.
+    apply all_named_Call in H. destruct H as [H1 H2]. cbn [names_truthy]. apply andb_true_iff. split.
+    - destruct name as [[|x n]|]; try discriminate; reflexivity.
+    - induction body as [|y r IHr]; [reflexivity|].
+      inversion IH as [|? ? I1 I2]; inversion H2 as [|? ? J1 J2]; subst.
+      apply andb_true_iff. split; [apply I1; exact J1 | apply IHr; assumption]. }
+  rewrite (nesting_is_depth md tops G Hnt).
+  assert (D : g_peak (run_list (init md) tops) <= N.max (g_peak (init md)) (max_depth (init md) + 1)
+              /\ max_depth (run_list (init md) tops) = max_depth (init md)).
+  { apply depth_ok_list.
+    - apply Forall_forall. intros t Ht. apply depth_named. rewrite forallb_forall in Hn. apply Hn. exact Ht.
+    - constructor.
+    - cbn. lia. }
+  destruct D as [D _]. cbn in D. lia.
+Qed.
